@@ -73,11 +73,12 @@ var nullaryTy = map[string]bool{"any": true, "unit": true, "undef": true, "defau
 
 // ---- constructors used by generators and the encoder -------------------------------------------------------
 
-func Atom(k string) Ty                       { return Ty{K: k} }
-func Int(lo, hi int64) Ty                    { return Ty{K: "int", Lo: lo, Hi: hi} }
-func Flt(lo, hi float64) Ty                  { return Ty{K: "flt", FLo: lo, FHi: hi} }
-func Bool(b int) Ty                          { return Ty{K: "bool", B: b} }
-func Tspan(lo, hi int64) Ty                  { return Ty{K: "tspan", Lo: lo, Hi: hi} }
+func Atom(k string) Ty      { return Ty{K: k} }
+func Int(lo, hi int64) Ty   { return Ty{K: "int", Lo: lo, Hi: hi} }
+func Flt(lo, hi float64) Ty { return Ty{K: "flt", FLo: lo, FHi: hi} }
+func Bool(b int) Ty         { return Ty{K: "bool", B: b} }
+func Tspan(lo, hi int64) Ty { return Ty{K: "tspan", Lo: lo, Hi: hi} }
+
 // StrSz builds String[lo,hi]; String[0,max] IS the default String (NewStringType normalises it), so it is the atom `str`.
 func StrSz(lo, hi int64) Ty {
 	if lo == 0 && hi == MaxI {
